@@ -9,7 +9,7 @@
    documented rules on the interpreter; they are tests of the definition, not theorems about
    the compiler (see DESIGN.md for what is and is not proved). *)
 From Coq Require Import List ZArith Bool String.
-From Ugo Require Import Base.Res Value.PValue Value.Ops Comp.SymTab Comp.SlotProofs Sem.Sem Sem.SemOps ExprComp.ExprComp ExprComp.ExprCompProofs.
+From Ugo Require Import Base.Res Value.PValue Value.Ops Comp.SymTab Comp.SlotProofs Sem.Sem Sem.SemOps ExprComp.ExprComp ExprComp.ExprCompProofs ExprComp.StmtComp ExprComp.StmtCompProofs.
 Import ListNotations.
 Local Open Scope string_scope.
 
@@ -48,6 +48,50 @@ Example C02_expr_example :
   xceval [PInt 5; PInt 7] [PInt 3; PInt 0] e = Ok (PInt 0) /\
   xmrun 100 [PInt 5; PInt 7] (xcompile 0 e) (xcsize (xcompile 0 e)) (XRunning 0 [PInt 3; PInt 0] []) = XRunning 31 [PInt 3; PInt 0] [PInt 0].
 Proof. vm_compute. split; reflexivity. Qed.
+
+(* Compiler correctness for statements over local variables (assignment and definition of a
+   local, expression statements, if / else if / else, for loops with break and continue, return):
+   whenever the source-level execution of a well-formed statement terminates (any fuel), the
+   machine running the code which the compiler model emits for it - at any byte position,
+   embedded in any surrounding code, with any jump targets for break and continue - reaches the
+   position after the code with the same locals (normal end), the break / continue target with
+   the same locals, the returned value, or the same thrown error.  Well-formed: the post
+   statement of a loop is a simple statement, as the parser guarantees.  The compiler model is
+   compared with the real compiler instruction by instruction (slots, byte positions, jump
+   targets) and all three executions (real VM, machine model, source level) are compared on
+   every run of the check. *)
+Theorem C02_stmt_compile_correct : forall consts fuel s locals pre post brk cont st,
+  sruns consts fuel (pre ++ scompile (xcsize pre) brk cont s ++ post) (xcsize pre) brk cont s locals st.
+Proof. exact scompile_correct. Qed.
+Print Assumptions C02_stmt_compile_correct.
+
+(* a whole function body: code at position 0, empty stack *)
+Theorem C02_function_body_correct : forall consts fuel s locals, wf s = true ->
+  match sexec fuel consts locals s with
+  | Ok (QReturn v, _) => mstar consts (scompile 0 0 0 s) (XRunning 0 locals []) (XReturned v)
+  | Ok (QNormal, l') => mstar consts (scompile 0 0 0 s) (XRunning 0 locals []) (XRunning (ssize s) l' [])
+  | Ok (_, _) => True
+  | Err e => mstar consts (scompile 0 0 0 s) (XRunning 0 locals []) (XThrown e)
+  | _ => True
+  end.
+Proof. exact function_body_correct. Qed.
+Print Assumptions C02_function_body_correct.
+
+(* non-vacuity: s := 0; for i := 0; i < 3; i = i + 1 { if i == 1 { continue }; s = s + i }; return s
+   (locals: s = 0, i = 1; constants 0 3 1) is well-formed, returns 2 at source level, and the
+   machine run on the emitted code returns 2 *)
+Example C02_stmt_example :
+  let k0 := XConst 0 in let k3 := XConst 1 in let k1 := XConst 2 in
+  let s := TSeq (TDef 0 k0) (TSeq (TDef 1 k0)
+             (TSeq (TFor (XBin TLess (XLocal 1) k3)
+                         (TSeq (TIf (XEq (XLocal 1) k1) TContinue) (TSet 0 (XBin TAdd (XLocal 0) (XLocal 1))))
+                         (TSet 1 (XBin TAdd (XLocal 1) k1)))
+                   (TRet (XLocal 0)))) in
+  let consts := [PInt 0; PInt 3; PInt 1] in
+  wf s = true /\
+  sexec 100 consts [PUndef; PUndef] s = Ok (QReturn (PInt 2), [PInt 2; PInt 3]) /\
+  xmrun 1000 consts (scompile 0 0 0 s) (xcsize (scompile 0 0 0 s)) (XRunning 0 [PUndef; PUndef] []) = XReturned (PInt 2).
+Proof. vm_compute. repeat split; reflexivity. Qed.
 
 (* non-vacuity: slots are re-used by sibling blocks and distinct in nested ones *)
 Example C02_slot_reuse :
